@@ -11,6 +11,10 @@ S0 == [m |-> "init", d |-> "top", refs |-> 3, flag |-> FALSE, handler |-> FALSE,
 (* ------------------------------ main thread ------------------------------ *)
 MInit(s)     == [s EXCEPT !.m = "serve"]                               \* LSP initialize handshake done
 MShutdown(s) == [s EXCEPT !.m = "wait_exit", !.sig = s.handler, !.handler = FALSE]   \* handlers invoked (and taken), reply sent
+(* invoke_shutdown_handlers sends on a channel of capacity 1 per handler (mos/src/lsp/mod.rs add_shutdown_handler): the send  *)
+(* never waits for the session thread. With capacity 0 (hypothetical deviation "RendezvousSignal") it is a rendezvous: the   *)
+(* main thread can only complete `shutdown` while the session thread sits in its select loop.                                *)
+MShutdownEn(s, dev) == s.m = "serve" /\ ("RendezvousSignal" \in dev => (~s.handler \/ s.d = "session"))
 MExit(s)     == [s EXCEPT !.m = "drain"]                               \* exit notification seen by handle_shutdown
 MLeft(s)     == [s EXCEPT !.m = "left"]                                \* receiver closed: main loop left
 MErr(s)      == [s EXCEPT !.m = "done", !.exit = 1]                    \* stdin closed while waiting for exit: protocol error is returned
@@ -38,5 +42,10 @@ DSig(s, dev) == IF "SignalPanicsDebugThread" \in dev
                 ELSE DEndSess(s)
 DDrop(s)    == [s EXCEPT !.d = "top", !.refs = @ - 1]
 DWake(s)    == [s EXCEPT !.d = "ending", !.bound = FALSE]              \* repair only: accept woken by the flag
+(* fifth session state: the session thread is busy inside a request that does not return (DAP `next` over a call to a        *)
+(* subroutine that never returns: TestRunner::step_over loops on the session thread, holding the adapter and runner locks).  *)
+(* It is not in its select loop: it neither sees the shutdown signal nor notices its client going away.                      *)
+DBusy(s)     == [s EXCEPT !.d = "busy", !.mach = "stepping"]
+DBusyWake(s) == [s EXCEPT !.d = "ending", !.handler = FALSE, !.sig = FALSE]   \* repair only: the step loop polls the flag
 
 ================================================================================
